@@ -2,6 +2,8 @@
  * m0.so .. m5.so; each reads the dependency graph from $VERIF_GRAPH
  * ("m0:m1,m2;m1:m3;...") and appends constructor / post-init / destructor
  * events to the file named by $VERIF_EVLOG. */
+#define _GNU_SOURCE
+#include <dlfcn.h>
 #include <fcntl.h>
 #include <stdio.h>
 #include <stdlib.h>
@@ -28,6 +30,7 @@ static void ev(const char *what)
     close(fd);
 }
 
+#ifndef NO_CTOR
 void module_constructor(const char name[])
 {
     const char *g = getenv("VERIF_GRAPH");
@@ -60,14 +63,38 @@ void module_constructor(const char name[])
         module_depends(deps[i], NULL);
     ev("ctor_end");
 }
+#else
+/* variant without a constructor: it cannot know its name, so it reads it from the
+ * file name it was loaded as (dladdr) when one of the other entry points runs */
+static void learn_name(void)
+{
+    Dl_info di;
+    if (!myname[0] && dladdr((void *)learn_name, &di) && di.dli_fname) {
+        const char *b = strrchr(di.dli_fname, '/');
+        snprintf(myname, sizeof(myname), "%s", b ? b + 1 : di.dli_fname);
+        if (strlen(myname) > 3)
+            myname[strlen(myname) - 3] = '\0';   /* strip ".so" */
+    }
+}
+#endif
 
+#ifndef NO_POSTINIT
 void module_post_init(struct module *self)
 {
     (void)self;
+#ifdef NO_CTOR
+    learn_name();
+#endif
     ev("post_init");
 }
+#endif
 
+#ifndef NO_DTOR
 void module_destructor(void)
 {
+#ifdef NO_CTOR
+    learn_name();
+#endif
     ev("dtor");
 }
+#endif
